@@ -158,9 +158,9 @@ func runC08() int {
 	if thorough {
 		nb, per = 100, 20
 	}
-	batches := []*batch{witnessBatch()}
+	batches := witnessBatches()
 	for i := 0; i < nb; i++ {
-		b := genBatch(rng, fmt.Sprintf("c08b%03d", i), per, thorough, false)
+		b := genBatch(rng, fmt.Sprintf("c08b%03d", i), per, thorough, "")
 		b.Delims = append([]string(nil), delims...)
 		if thorough && i < 10 {
 			b.Delims = append(b.Delims, "%")
@@ -168,9 +168,9 @@ func runC08() int {
 		batches = append(batches, b)
 	}
 	if thorough {
-		for i := 0; i < 6; i++ {
-			b := genBatch(rng, fmt.Sprintf("c08x%03d", i), 20, thorough, true)
-			b.Delims = []string{".", "%"}
+		for i, kind := range exoticKindOrder {
+			b := genBatch(rng, fmt.Sprintf("c08x%d%s", i, strings.ReplaceAll(kind, "_", "")), 16, thorough, kind)
+			b.Delims = []string{"."} // one stress class at a time: '%' as delimiter is exercised on core scopes
 			batches = append(batches, b)
 		}
 	}
@@ -294,7 +294,9 @@ func (c *c08) compileAll() {
 	}
 	for _, u := range c.units {
 		for _, l := range langs {
-			tasks <- task{u, l}
+			if u.B.has(l) {
+				tasks <- task{u, l}
+			}
 		}
 	}
 	close(tasks)
@@ -529,7 +531,7 @@ func (c *c08) goLeg() {
 	}
 	run.Set("go_scope_files_dropped_for_compile_errors", dropped)
 	if !built {
-		c.down("go", "the harness does not build against the emitted Go: " + firstLine(buildOut))
+		c.down("go", "the harness does not build against the emitted Go: "+firstLine(buildOut))
 		fmt.Println(buildOut)
 		return
 	}
@@ -720,8 +722,8 @@ func (c *c08) pythonLeg() {
 				for sc.Scan() {
 					var res struct {
 						Key, Scope, Op, Side, Err, Note, Missing string
-						Topic                                  *string
-						Case                                   int
+						Topic                                    *string
+						Case                                     int
 					}
 					if json.Unmarshal(sc.Bytes(), &res) != nil || res.Key == "" {
 						continue
@@ -800,14 +802,28 @@ func (c *c08) sourceLeg() {
 			served := map[string]bool{}
 			for i := range sites {
 				s := &sites[i]
-				opName, ok := evalOpName(s)
-				if !ok {
-					c.inconclusive(fmt.Sprintf("%s: op literal of a topic site not understood: %s", lang, shapeOf(s.Op)))
-					continue
-				}
+				// which operation the site belongs to: the emitted method is named
+				// publish<Op> / subscribe<Op>[Throwable] / _publish<Op>; fall back to
+				// the op literal when that does not name an operation of the model
+				opName := s.Method
 				sp := u.B.ByOp[opName]
+				if sp == nil && s.Kind != "pub" && strings.HasSuffix(opName, "Throwable") {
+					opName = strings.TrimSuffix(opName, "Throwable")
+					sp = u.B.ByOp[opName]
+				}
+				if sp == nil {
+					lit, ok := evalOpName(s)
+					if !ok {
+						c.inconclusive(fmt.Sprintf("%s: topic site in a method %q that matches no operation, op literal not understood: %s", lang, s.Method, shapeOf(s.Op)))
+						continue
+					}
+					opName, sp = lit, u.B.ByOp[lit]
+				}
 				if sp == nil {
 					c.note(fmt.Sprintf("%s: topic site for unknown operation %q", lang, opName))
+					continue
+				}
+				if sp.SkipLangs[lang] {
 					continue
 				}
 				served[opName+"\x00"+s.Kind] = true
@@ -829,6 +845,9 @@ func (c *c08) sourceLeg() {
 				}
 			}
 			for _, sp := range u.B.Scopes {
+				if sp.SkipLangs[lang] {
+					continue
+				}
 				for _, op := range sp.Scope.Ops {
 					for _, side := range langSides[lang] {
 						if !served[op.Name+"\x00"+side] {
@@ -853,10 +872,17 @@ func (c *c08) compare() {
 	errorsPerLang := map[string]int{}
 	missingPerLang := map[string]int{}
 	allIdentical := 0
-	report := func(sig, what string, witness map[string]interface{}) {
-		sigCount[sig]++
-		run.Violation(sig, what, witness)
+	// A deviation is (language pair, component, detail); it is attributed to a
+	// stress class only when no core tuple of this run shows the same
+	// deviation, so reports are collected first and signed afterwards:
+	//   core:   C08:<lang>-vs-<x>:<component>:<detail>
+	//   stress: C08:<lang>-vs-<x>:<component>:<class>:<detail>
+	type pending struct {
+		head, detail, stress, what string
+		witness                    map[string]interface{}
 	}
+	var reports []pending
+	coreDevs := map[string]bool{}
 	for _, u := range c.units {
 		for _, sp := range u.B.Scopes {
 			for _, op := range sp.Scope.Ops {
@@ -867,10 +893,6 @@ func (c *c08) compare() {
 					run.Distinct(fmt.Sprintf("scope=%s prefix=%s delim=%s", sp.NameClass, sp.PrefixShape, u.Delim))
 					got := c.st.m[tkey(u.Key, sp.Scope.Name, op.Name, ci)]
 					stress := stressOf(sp, u.Delim, ci)
-					suffix := ""
-					if stress != "" {
-						suffix = ":" + stress
-					}
 					topics := map[string]map[string]string{}
 					for _, l := range langs {
 						topics[l] = map[string]string{}
@@ -891,8 +913,17 @@ func (c *c08) compare() {
 						"operation": op.Name, "reference": want, "topics": topics, "batch": u.B.Name,
 						"reproduce": fmt.Sprintf("struct Pay { 1: i32 n } + the scope above in x.frugal; frugal -gen <go|java|dart|py|py:asyncio|py:tornado> -delim '%s' x.frugal", u.Delim),
 					}
+					report := func(head, detail, what string) {
+						if stress == "" {
+							coreDevs[head+":"+detail] = true
+						}
+						reports = append(reports, pending{head, detail, stress, what, witness})
+					}
 					identical := true
 					for _, l := range langs {
+						if !u.B.has(l) || sp.SkipLangs[l] {
+							continue
+						}
 						var first *obs
 						firstSide := ""
 						seen := map[string]bool{}
@@ -918,9 +949,9 @@ func (c *c08) compare() {
 							if first == nil {
 								oc := o
 								first, firstSide = &oc, s
-							} else if o.String() != first.String() {
-								report(fmt.Sprintf("C08:%s-vs-%s:pub-vs-sub:%s-ne-%s%s", l, l, firstSide, s, suffix),
-									fmt.Sprintf("%s (%s): the %s side uses %q, the %s side %q for the same scope, operation and variable values (delimiter %q)", l, how[l], firstSide, first.String(), s, o.String(), u.Delim), witness)
+							} else if o.String() != first.String() && (o.Has || first.Has) {
+								report(fmt.Sprintf("C08:%s-vs-%s:pub-vs-sub", l, l), firstSide+"-ne-"+s,
+									fmt.Sprintf("%s (%s): the %s side uses %q, the %s side %q for the same scope, operation and variable values (delimiter %q)", l, how[l], firstSide, first.String(), s, o.String(), u.Delim))
 							}
 							if seen[o.String()] {
 								continue
@@ -935,13 +966,13 @@ func (c *c08) compare() {
 								if strings.Contains(o.Err, "-prefix-expression") {
 									comp = "prefix-substitution"
 								}
-								report(fmt.Sprintf("C08:%s-vs-reference:%s:%s%s", l, comp, errSlug(o.Err), suffix),
-									fmt.Sprintf("%s (%s) %s side yields no topic: %s; reference topic %q", l, how[l], s, o.Err, want), witness)
+								report(fmt.Sprintf("C08:%s-vs-reference:%s", l, comp), errSlug(o.Err),
+									fmt.Sprintf("%s (%s) %s side yields no topic: %s; reference topic %q", l, how[l], s, o.Err, want))
 								continue
 							}
 							for _, d := range classify(ref, o.Topic) {
-								report(fmt.Sprintf("C08:%s-vs-reference:%s:%s%s", l, d.Component, d.Detail, suffix),
-									fmt.Sprintf("%s (%s) %s side uses topic %q, the reference is %q (component: %s, %s)", l, how[l], s, o.Topic, want, d.Component, d.Detail), witness)
+								report(fmt.Sprintf("C08:%s-vs-reference:%s", l, d.Component), d.Detail,
+									fmt.Sprintf("%s (%s) %s side uses topic %q, the reference is %q (component: %s, %s)", l, how[l], s, o.Topic, want, d.Component, d.Detail))
 							}
 						}
 					}
@@ -954,6 +985,14 @@ func (c *c08) compare() {
 				}
 			}
 		}
+	}
+	for _, r := range reports {
+		sig := r.head + ":" + r.detail
+		if r.stress != "" && !coreDevs[sig] {
+			sig = r.head + ":" + r.stress + ":" + r.detail
+		}
+		sigCount[sig]++
+		run.Violation(sig, r.what, r.witness)
 	}
 	for _, l := range langs {
 		run.Set("topics_"+l+"_"+how[l], topicsPerLang[l])
